@@ -715,8 +715,27 @@ func c07Corpus(prop string) func() []any {
 		}
 		// the hub starts with the one-block files 12 and the live block 13 (declared LIB 11 unknown: not ready); after 10
 		// delivered events (5..14) the fork blocks 114 and 115 arrive: ready, head 115, LIB 13
-		return []any{&c07Input{Prop: prop, First: 2, Kept: 5, Bundle: 10, Root: b(2), Arrival: arr, A0: 11, HubStart: 12, Merged: 20,
-			Mode: "num", Start: 5, Filter: "default", Pauses: []c07Pause{{After: 10, Push: 2}, {After: 12, Push: 8}}, Shape: "corpus/join-on-fork"}}
+		joinOnFork := &c07Input{Prop: prop, First: 2, Kept: 5, Bundle: 10, Root: b(2), Arrival: arr, A0: 11, HubStart: 12, Merged: 20,
+			Mode: "num", Start: 5, Filter: "default", Pauses: []c07Pause{{After: 10, Push: 2}, {After: 12, Push: 8}}, Shape: "corpus/join-on-fork"}
+		// final blocks only, the join happens ABOVE the hub's LIB: linear chain 2..14, block n declares n-4 final; merged files
+		// hold 2..11; the hub starts with block 8 alone (not ready); after 6 delivered events (5..10) blocks 9..12 arrive: ready,
+		// LIB 8; the file block 11 joins (burst New 11, New 12: not final); 13 and 14 arrive: the hub announces 9 and 10 as
+		// irreversible - blocks the files already delivered.  Each final block must be delivered once
+		// (found by the proof of c07_seamless_num_final: hypothesis files_final, theorem c07_final_only_refuted)
+		lag := func(n uint64) fkBlock {
+			lib := uint64(0)
+			if n >= 4 {
+				lib = n - 4
+			}
+			return fkBlock{ID: n, Num: n, Parent: n - 1, Lib: lib}
+		}
+		var arr2 []fkBlock
+		for n := uint64(3); n <= 14; n++ {
+			arr2 = append(arr2, lag(n))
+		}
+		finalAboveLib := &c07Input{Prop: prop, First: 2, Kept: 5, Bundle: 4, Root: lag(2), Arrival: arr2, A0: 6, HubStart: 8, Merged: 12,
+			Mode: "num", Start: 5, Filter: "final", Pauses: []c07Pause{{After: 6, Push: 4}}, Shape: "corpus/final-only-join-above-hub-lib"}
+		return []any{joinOnFork, finalAboveLib}
 	}
 }
 
